@@ -298,4 +298,19 @@ theorem tie_app_source_order :
   intro P fs init h strict st e he
   simp [appBind, he]
 
+/-- **The content types `bindInternal` dispatches on are those the model's `classifyCT` knows, arm by arm** (JSON and
+    its patch variants and the empty type to `bindJSON`, URL-encoded and multipart forms to `bindForm`), **and `bindForm`
+    tests the raw header for the prefix the model's `formSrc` tests**: with it the fields of the multipart body alone are
+    bound, without it `Request.Form`. -/
+theorem tie_app_content_types :
+    app_contentTypeArms.map (·.2) = [["bindJSON"], ["bindForm"], ["bindForm"]] ∧
+    ((app_contentTypeArms.map (·.1)).zip [CT.json, CT.form, CT.multipart]).all
+      (fun p => p.1.all (fun s => classifyCT (B s) == p.2)) = true ∧
+    app_bindForm_prefixes = ["multipart/form-data"] ∧
+    (∀ h : Http, hasPrefix h.ctype (B "multipart/form-data") = true → formSrc h = h.mform.getD { kind := .form, kvs := [] }) ∧
+    (∀ h : Http, hasPrefix h.ctype (B "multipart/form-data") = false → formSrc h = h.form) := by
+  refine ⟨by decide, by decide, by decide, ?_, ?_⟩
+  · intro h hp; simp [formSrc, hp]
+  · intro h hp; simp [formSrc, hp]
+
 end Rivaas.Tie.C04Bind
